@@ -23,9 +23,20 @@ RULE = ('A: every list of length 0..5 (thorough 0..6) over a 3-value key domain 
         'field forms.  C: seeded lists of length 0..8.  The way the spec reaches the tag (sort= '
         'quoted/unquoted, sort_expr), the container (list, tuple, mutator-logging list), the '
         'None-vs-missing representation, the reverse mode and the batch window rotate with the '
-        'case counter.  Every case is rendered plain, reversed and batched.  Non-trivial: at least '
-        'two elements (every 2-element list decides an order or a tie); distinct = distinct '
-        '(spec, route, kind, delivery, container, key types, rows, reverse mode, window).')
+        'case counter.  D: the sequence of the caller is something else than a list or tuple: one-shot '
+        'iterables {iter(list), generator, map object, itertools.chain}, re-iterable non-subscriptable '
+        'ones {dict values / keys / items views, a dict, set, frozenset, a class with only __iter__, '
+        'with __iter__ and __len__, with only __getitem__} and subscriptable non-lists {deque, '
+        'UserList, a class with __getitem__ and __len__}: for every such kind x key type x every '
+        'single-key form, element sort and no sort, every list of length 0..3 (thorough 0..4); every '
+        'list of 0..2 (thorough 0..3) two-key rows for the type and form pairs of B; and seeded lists '
+        'of 0..8; in D the element kind, key delivery, route, how the tag gets the sequence (name, '
+        'expr="seq", "mk()" calling a factory) and the spelling of the tag (<dtml-in>, <!--#in-->, '
+        '%(in)[ of String) are drawn with the seeded generator.  Every case is rendered plain, '
+        'reversed and batched: a re-iterable object is the same object in the three renderings, a '
+        'one-shot iterable is made anew over the same elements.  Non-trivial: at least two elements '
+        '(every 2-element list decides an order or a tie); distinct = distinct (spec, route, kind, '
+        'delivery, container, key types, rows, reverse mode, window, sequence origin, tag spelling).')
 ASSUMPTIONS = [
     'under /desc the statement does not say whether None/missing keys stay first or are inverted to '
     'the end: either is accepted, but one reading per key for the whole list',
@@ -36,6 +47,18 @@ ASSUMPTIONS = [
     '/nocase only with str keys; locale comparators and user-defined comparison functions are not '
     'part of the statement and are not run; mixed incomparable key types are not generated',
     'batch windows use only start= and size= inside 1..length (window model is C11 business)',
+    'the "original order" of a container is the order in which it yields its elements: for a set / '
+    'frozenset that is the iteration order of that very object, read once before rendering; input '
+    'positions in a report on a set refer to that order',
+    '"caller\'s sequence left unmodified" is demanded of every object that can be walked twice '
+    '(same members, same order, elements unchanged); a one-shot iterator is consumed by design and '
+    'only its elements (and the private list it was drawn from) are compared',
+    'set members / dict keys must be hashable and pairwise unequal and dict.items() yields 2-tuples '
+    'with unequal first parts: where the elements of a case do not allow the container drawn for '
+    'it, a dict values view is used instead (counted)',
+    'wrappers and entry counters on engine internals (sort_sequence, reverse_sequence, SortBy, ...) '
+    'are diagnosis: the verdict and `inconclusive` rest on what was shown and on the caller\'s '
+    'objects; the wrappers do not walk an argument that is not a list or tuple',
 ]
 SHARD_TIMEOUT = {'quick': 900, 'thorough': 3000}
 NSHARDS = {'quick': 16, 'thorough': 48}
@@ -43,6 +66,13 @@ NSHARDS = {'quick': 16, 'thorough': 48}
 MAXLEN_A = {'quick': 5, 'thorough': 6}
 MAXLEN_B = {'quick': 3, 'thorough': 4}
 NSEEDED = {'quick': 24000, 'thorough': 300000}
+# part D (containers other than list / tuple)
+MAXLEN_D1 = {'quick': 3, 'thorough': 4}
+MAXLEN_D2 = {'quick': 2, 'thorough': 3}
+NSEEDED_D = {'quick': 8000, 'thorough': 100000}
+SORT_CLASSES = ['key1/sort', 'key1/sort_unq', 'key1/sort_expr', 'key2/sort', 'key2/sort_expr',
+                'isort/sort', 'isort/sort_expr', 'nosort']
+LAWS = ['every element shown exactly once', 'reverse', 'reverse_expr', 'batch', 'batch of sorted']
 
 KEYED_KINDS = ['obj', 'map', 'pair']
 ISORT_KINDS = ['plain', 'cmpobj', 'pair']
@@ -58,12 +88,19 @@ def plan(tier, seed):
 
 
 # ---------------------------------------------------------------- templates
-BODY = '<dtml-var sequence-item>;'
-BODY_PAIR = '<dtml-var sequence-key>=<dtml-var sequence-item>;'
+SYNTAXES = ['dtml', 'comment', 'string']
+SEQFROMS = ['name', 'expr', 'call']
+SEQFROM_TEXT = {'name': 'seq', 'expr': 'expr="seq"', 'call': '"mk()"'}
+SHAPE = {   # (open, close-of-open, variable, end tag) of the three spellings of the same tag
+    'dtml': ('<dtml-in ', '>', '<dtml-var %s>', '</dtml-in>'),
+    'comment': ('<!--#in ', '-->', '<!--#var %s-->', '<!--#/in-->'),
+    'string': ('%(in ', ')[', '%%(%s)s', '%(in)]'),
+}
 
 
 def source(case, revmode, batch):
-    parts = ['<dtml-in seq']
+    opn, opn_end, var, end = SHAPE[case.get('syntax', 'dtml')]
+    parts = [opn + SEQFROM_TEXT[case.get('seqfrom', 'name')]]
     route = case['route']
     if case['isort']:
         if route == 'sort_expr':
@@ -85,8 +122,10 @@ def source(case, revmode, batch):
         parts.append('reverse_expr="rv"')
     if batch:
         parts.append('start=st size=sz')
-    body = BODY_PAIR if case['kind'] in ('pair', 'pairmap') else BODY
-    return ' '.join(parts) + '>' + body + '</dtml-in>'
+    body = var % 'sequence-item' + ';'
+    if case['kind'] in ('pair', 'pairmap'):
+        body = var % 'sequence-key' + '=' + body
+    return ' '.join(parts) + opn_end + body + end
 
 
 class Templates:
@@ -95,41 +134,51 @@ class Templates:
 
     def get(self, src):
         from DocumentTemplate.DT_HTML import HTML
+        from DocumentTemplate.DT_String import String
         t = self.cache.get(src)
         if t is None:
-            t = self.cache[src] = HTML(src)
+            t = self.cache[src] = (String if src.startswith('%(in ') else HTML)(src)
         return t
 
 
 # ---------------------------------------------------------------- monitors on the real functions
 class SortMonitor:
+    """Diagnosis on two internal functions (the verdict never depends on their being there).
+
+    A list or tuple argument is read before and after the call.  Anything else (the engine's
+    wrapper around an iterable, a user class, a deque ...) is NOT touched: walking it here would
+    change what the engine sees next; its result is compared with the elements the case put in."""
+
     def __init__(self, ctx):
         self.ctx = ctx
         self.sorts = []
         self.reverses = []
+        self.expected = []          # the input elements of the current rendering, in input order
 
     def install(self):
         from DocumentTemplate import DT_In
-        cls = DT_In.InClass
-        real_sort = cls.sort_sequence
-        real_rev = cls.reverse_sequence
+        cls = getattr(DT_In, 'InClass', None)
+        real_sort = getattr(cls, 'sort_sequence', None)
+        real_rev = getattr(cls, 'reverse_sequence', None)
         mon = self
 
         def sort_sequence(self_, sequence, *a, **kw):
-            before = [x for x in sequence]
+            before = [x for x in sequence] if isinstance(sequence, (list, tuple)) else None
             r = real_sort(self_, sequence, *a, **kw)
             mon.sorts.append((sequence, before, r))
             return r
         sort_sequence.__wrapped__ = real_sort
 
         def reverse_sequence(self_, sequence, *a, **kw):
-            before = [x for x in sequence]
+            before = [x for x in sequence] if isinstance(sequence, (list, tuple)) else None
             r = real_rev(self_, sequence, *a, **kw)
             mon.reverses.append((sequence, before, r))
             return r
         reverse_sequence.__wrapped__ = real_rev
-        cls.sort_sequence = sort_sequence
-        cls.reverse_sequence = reverse_sequence
+        if real_sort is not None:
+            cls.sort_sequence = sort_sequence
+        if real_rev is not None:
+            cls.reverse_sequence = reverse_sequence
 
     def clear(self):
         del self.sorts[:]
@@ -139,7 +188,19 @@ class SortMonitor:
         """postconditions of the recorded calls (identity level)."""
         ctx = self.ctx
         out = []
+        want = [U.norm_id(x) for x in self.expected]
         for seq, before, r in self.sorts:
+            if before is None:
+                ctx.count('monitor:sort_sequence result vs case elements (argument not a list/tuple)')
+                try:
+                    got = sorted(U.norm_id(x) for x in r)
+                except TypeError:
+                    got = None
+                if got != sorted(want):
+                    out.append(('permutation', 'sort_sequence result is not a permutation (by identity) of '
+                                'the elements of the iterable: %d in, %s out'
+                                % (len(want), len(r) if got is not None else '?')))
+                continue
             ctx.count('monitor:sort_sequence postcondition evaluations')
             now = [x for x in seq]
             if len(now) != len(before) or any(a is not b for a, b in zip(now, before)):
@@ -148,6 +209,16 @@ class SortMonitor:
                 out.append(('permutation', 'sort_sequence result is not a permutation (by identity) '
                             'of its input: %d in, %d out' % (len(before), len(r))))
         for seq, before, r in self.reverses:
+            if before is None:
+                ctx.count('monitor:reverse_sequence result vs case elements (argument not a list/tuple)')
+                try:
+                    got = [U.norm_id(x) for x in r]
+                except TypeError:
+                    got = None
+                if got != want[::-1]:
+                    out.append(('reverse', 'reverse_sequence result is not the exact reverse of the '
+                                'elements of the iterable'))
+                continue
             ctx.count('monitor:reverse_sequence postcondition evaluations')
             now = [x for x in seq]
             if len(now) != len(before) or any(a is not b for a, b in zip(now, before)):
@@ -182,11 +253,16 @@ def fields_of(case):
     return [(f[1], f[2]) for f in case['fields']]
 
 
-def render(ctx, mon, templates, case, seq, rows, log, revmode, batch, fp0):
-    """One rendering; returns the list of shown Row objects or None (violation recorded)."""
+def render(ctx, mon, templates, case, data, rows, log, revmode, batch, fp0):
+    """One rendering; returns the list of shown Row objects or None (violation recorded).
+    data: U.Source -- the same object every time, a new iterator for the one-shot kinds."""
     src = source(case, revmode, batch)
     t = templates.get(src)
+    seq = data.get()
     ns = {'seq': seq}
+    if case.get('seqfrom') == 'call':
+        ns = {'mk': lambda: seq}
+    mon.expected = data.items
     if 'sort_expr="sx"' in src:
         ns['sx'] = '' if case['isort'] else case['spec']
     if revmode == 'reverse_expr1':
@@ -211,7 +287,7 @@ def render(ctx, mon, templates, case, seq, rows, log, revmode, batch, fp0):
     ctx.count('renders:' + label)
     problems = []
     # -- the caller's sequence and its elements
-    if U.fingerprint(seq, rows) != fp0:
+    if U.fingerprint(data, rows) != fp0:
         problems.append(('mutation', "the caller's sequence or one of its elements changed"))
     if isinstance(seq, U.WatchedList) and seq.mutations:
         problems.append(('mutation', "mutators called on the caller's list: %r" % seq.mutations[:4]))
@@ -287,9 +363,16 @@ def report(ctx, vcase, problems, src, out, extra=None):
 def run_case(ctx, mon, templates, case, counter):
     """Plain + reversed + batched rendering of one input."""
     log = U.Log()
-    seq, rows = U.build(case, log)
+    data, rows = U.build(case, log)
     n = len(rows)
     fields = fields_of(case)
+    cont = data.name
+    if case['isort']:
+        sclass = 'isort/' + case['route']
+    elif case['spec'] is None:
+        sclass = 'nosort'
+    else:
+        sclass = 'key%d/%s' % (len(fields), case['route'])
     revmode = REVMODES[counter % 3]
     over_rev = (counter // 3) % 2 == 1
     if n:
@@ -298,7 +381,8 @@ def run_case(ctx, mon, templates, case, counter):
     else:
         st, sz = 1, 2
     ctx.case((case['tag'], case['route'], case['kind'], case.get('delivery'), case['container'],
-              tuple(case['ktypes']), tuple(map(tuple, case['rows'])), revmode, over_rev, st, sz),
+              tuple(case['ktypes']), tuple(map(tuple, case['rows'])), revmode, over_rev, st, sz,
+              case.get('seqfrom', 'name'), case.get('syntax', 'dtml')),
              nontrivial=n >= 2)
     for j, kt in enumerate(case['ktypes']):
         form = case['form'] if case['isort'] else U.field_text('k', *fields[j])
@@ -307,13 +391,19 @@ def run_case(ctx, mon, templates, case, counter):
         ctx.table('keytype x field form', '%s | %s' % (kt, form))
         ctx.table('keytype x kind/delivery', '%s | %s/%s' % (kt, case['kind'], case.get('delivery') or '-'))
     ctx.table('route', case['route'])
-    ctx.table('container', case['container'])
+    ctx.table('container', cont)
+    if cont != case['container']:
+        ctx.count('container:%s not possible for these elements, %s used' % (case['container'], cont))
+    ctx.table('sequence given by', case.get('seqfrom', 'name'))
+    ctx.table('tag syntax', case.get('syntax', 'dtml'))
     ctx.table('length', n)
     ctx.table('number of keys', 0 if case['isort'] or case['spec'] is None else len(fields))
-    fp0 = U.fingerprint(seq, rows)
-    plain = render(ctx, mon, templates, case, seq, rows, log, None, None, fp0)
+    fp0 = U.fingerprint(data, rows)
+    plain = render(ctx, mon, templates, case, data, rows, log, None, None, fp0)
     if plain is None:
         return
+    if n >= 2:
+        ctx.table('container x law', '%s | every element shown exactly once' % cont)
     src0 = source(case, None, None)
     # ---- order, stability, None placement
     if case['spec'] is not None or case['isort']:
@@ -324,6 +414,8 @@ def run_case(ctx, mon, templates, case, counter):
             return
         ctx.count('oracle:order evaluations')
         ctx.count('oracle:pairs compared', n * (n - 1) // 2)
+        if n >= 2:
+            ctx.table('container x sort', '%s | %s' % (cont, sclass))
         for i, (fn, d) in enumerate(fields):
             if d == 'desc':
                 ks = [r.keys[i] for r in rows]
@@ -343,14 +435,18 @@ def run_case(ctx, mon, templates, case, counter):
                           'input_positions_in_shown_order': [r.idx for r in plain]})
     else:
         # no sort at all: only here so that `reverse` alone is covered
+        if n >= 2:
+            ctx.table('container x sort', '%s | %s' % (cont, sclass))
         if [r.idx for r in plain] != list(range(n)):
             report(ctx, dict(case, revmode=None, batch=None),
                    [('order', 'unsorted rendering does not show the input order')], src0, '')
     # ---- reverse
-    rev = render(ctx, mon, templates, case, seq, rows, log, revmode, None, fp0)
+    rev = render(ctx, mon, templates, case, data, rows, log, revmode, None, fp0)
     want = plain if revmode == 'reverse_expr0' else plain[::-1]
     if rev is not None:
         ctx.count('oracle:reverse law evaluations')
+        if n >= 2:
+            ctx.table('container x law', '%s | %s' % (cont, 'reverse_expr' if revmode != 'reverse' else 'reverse'))
         if shown_ids(case, rev) != shown_ids(case, want):
             report(ctx, dict(case, revmode=revmode, batch=None),
                    [('reverse', '%s shows inputs %r, the plain rendering shows %r'
@@ -360,9 +456,11 @@ def run_case(ctx, mon, templates, case, counter):
     if n:
         bmode = revmode if over_rev else None
         base = want if over_rev else plain
-        win = render(ctx, mon, templates, case, seq, rows, log, bmode, [st, sz], fp0)
+        win = render(ctx, mon, templates, case, data, rows, log, bmode, [st, sz], fp0)
         if win is not None:
             ctx.count('oracle:batch law evaluations')
+            if n >= 2:
+                ctx.table('container x law', '%s | batch%s' % (cont, ' of sorted' if sclass != 'nosort' else ''))
             exp = base[st - 1:min(n, st - 1 + sz)]
             if shown_ids(case, win) != shown_ids(case, exp):
                 report(ctx, dict(case, revmode=bmode, batch=[st, sz]),
@@ -502,19 +600,107 @@ def seeded_case(rng, counter):
     return rotate(case, counter)
 
 
+def part_d1(tier):
+    """every new container kind x key type x every single-key form / element sort / no sort x
+    every list up to MAXLEN_D1 (element kind, delivery, route, ... are drawn per case)."""
+    maxlen = MAXLEN_D1[tier]
+    for cont in U.NEW_CONTAINERS:
+        for kt in U.KTYPES:
+            nvals = len(U.KEYDOM[kt])
+            vals = list(range(nvals)) + [None]
+            for form in U.forms_for(kt):
+                for n in range(maxlen + 1):
+                    for row in itertools.product(vals, repeat=n):
+                        yield ('key', cont, kt, form, row)
+            for form in ISORT_FORMS:
+                for n in range(maxlen + 1):
+                    for row in itertools.product(range(nvals), repeat=n):
+                        yield ('isort', cont, kt, form, row)
+            for n in range(maxlen + 1):
+                for row in itertools.product(range(nvals), repeat=n):
+                    yield ('nosort', cont, kt, None, row)
+
+
+def part_d2(tier):
+    maxlen = MAXLEN_D2[tier]
+    cells = [(a, b) for a in (0, 1, None) for b in (0, 1, None)]
+    for t1, t2 in type_pairs():
+        for f1 in U.forms_for(t1, reduced=True):
+            for f2 in U.forms_for(t2, reduced=True):
+                for n in range(maxlen + 1):
+                    for rows in itertools.product(cells, repeat=n):
+                        yield (t1, t2, f1, f2, rows)
+
+
+def vary(case, rng, cont):
+    """part D: the container is given, the way the sequence and the tag are written is drawn."""
+    case['container'] = cont
+    case['seqfrom'] = rng.choice(SEQFROMS)
+    case['syntax'] = rng.choice(SYNTAXES)
+    if case['syntax'] == 'string' and case['seqfrom'] == 'call':
+        case['seqfrom'] = 'expr'       # no ")" inside a %(...) tag
+    return case
+
+
+def run_part_d(ctx, mon, templates):
+    rng = ctx.rng
+    counter = 0
+    for kind_, cont, kt, form, row in part_d1(ctx.tier):
+        counter += 1
+        if counter % ctx.nshards != ctx.shard:
+            continue
+        c = rng.randrange(1 << 20)
+        if kind_ == 'key':
+            case = keyed_case('D:key1', [kt], [form], rng.choice(KEYED_KINDS + ['pairmap']),
+                              rng.choice(['plain', 'callable']), [[e] for e in row], c)
+        elif kind_ == 'isort':
+            case = isort_case('D:isort', kt, form, rng.choice(ISORT_KINDS), list(row), c)
+        else:
+            case = nosort_case('D:nosort', kt, rng.choice(['obj', 'pair']), list(row), c)
+        ctx.count('part D cases (containers, single key / element sort / no sort)')
+        run_case(ctx, mon, templates, vary(case, rng, cont), rng.randrange(1 << 20))
+    for t1, t2, f1, f2, rows in part_d2(ctx.tier):
+        counter += 1
+        if counter % ctx.nshards != ctx.shard:
+            continue
+        case = keyed_case('D:key2', [t1, t2], [f1, f2], rng.choice(KEYED_KINDS + ['pairmap']),
+                          rng.choice(['plain', 'callable']), [list(r) for r in rows],
+                          rng.randrange(1 << 20), small=True)
+        ctx.count('part D cases (containers, two keys)')
+        run_case(ctx, mon, templates, vary(case, rng, rng.choice(U.NEW_CONTAINERS)), rng.randrange(1 << 20))
+    for _ in range(NSEEDED_D[ctx.tier] // ctx.nshards):
+        case = seeded_case(rng, rng.randrange(1 << 20))
+        case['tag'] = 'D' + case['tag'][1:]
+        ctx.count('part D cases (containers, seeded)')
+        run_case(ctx, mon, templates, vary(case, rng, rng.choice(U.NEW_CONTAINERS)), rng.randrange(1 << 20))
+
+
 # ---------------------------------------------------------------- shard
 def make_reach():
     from DocumentTemplate import DT_In
     from vlib.reach import Reach
+    from DocumentTemplate import DT_Util
     reach = Reach()
-    reach.watch('InClass.sort_sequence', DT_In.InClass.sort_sequence)
-    reach.watch('InClass.reverse_sequence', DT_In.InClass.reverse_sequence)
-    reach.watch('make_sortfunctions', DT_In.make_sortfunctions)
-    reach.watch('SortBy.__call__', DT_In.SortBy.__call__)
-    reach.watch('nocase', DT_In.nocase)
-    reach.watch('cmp', DT_In.cmp)
-    reach.watch('InClass.renderwb', DT_In.InClass.renderwb)
-    reach.watch('InClass.renderwob', DT_In.InClass.renderwob)
+
+    def watch(label, owner, *path):
+        # anchors are diagnosis: one that a refactoring has removed is simply not watched
+        f = owner
+        for name in path:
+            f = getattr(f, name, None)
+        if f is not None:
+            try:
+                reach.watch(label, f)
+            except Exception:
+                pass
+    watch('InClass.sort_sequence', DT_In, 'InClass', 'sort_sequence')
+    watch('InClass.reverse_sequence', DT_In, 'InClass', 'reverse_sequence')
+    watch('make_sortfunctions', DT_In, 'make_sortfunctions')
+    watch('SortBy.__call__', DT_In, 'SortBy', '__call__')
+    watch('nocase', DT_In, 'nocase')
+    watch('cmp', DT_In, 'cmp')
+    watch('InClass.renderwb', DT_In, 'InClass', 'renderwb')
+    watch('InClass.renderwob', DT_In, 'InClass', 'renderwob')
+    watch('SequenceFromIter.__getitem__', DT_Util, 'SequenceFromIter', '__getitem__')
     return reach
 
 
@@ -556,6 +742,7 @@ def run(ctx, spec):
         case = seeded_case(rng, rng.randrange(1 << 20))
         ctx.count('part C cases (seeded)')
         run_case(ctx, mon, templates, case, rng.randrange(1 << 20))
+    run_part_d(ctx, mon, templates)
     ctx.count('templates compiled', len(templates.cache))
     reach.stop()
     reach.report(ctx)
@@ -566,17 +753,38 @@ def finish(agg):
     c = agg['counters']
     t = agg['tables']
     inc = []
-    for k in ('monitor:sort_sequence postcondition evaluations',
-              'monitor:reverse_sequence postcondition evaluations',
-              'monitor:input fingerprint comparisons', 'oracle:order evaluations',
+    diag = []
+    # deciding: comparisons made on what was shown and on the caller's objects
+    for k in ('monitor:input fingerprint comparisons', 'oracle:order evaluations',
               'oracle:reverse law evaluations', 'oracle:batch law evaluations',
               'oracle:cases with None/missing keys', 'oracle:cases with tied keys'):
         if not c.get(k):
             inc.append('deciding monitor never evaluated: ' + k)
+    # diagnosis: wrappers and anchors on engine internals (a renamed private function must not
+    # make the run inconclusive when the comparisons above were made)
+    for k in ('monitor:sort_sequence postcondition evaluations',
+              'monitor:reverse_sequence postcondition evaluations',
+              'monitor:sort_sequence result vs case elements (argument not a list/tuple)',
+              'monitor:reverse_sequence result vs case elements (argument not a list/tuple)'):
+        if not c.get(k):
+            diag.append('internal monitor never evaluated: ' + k)
     for r in ('InClass.sort_sequence', 'InClass.reverse_sequence', 'make_sortfunctions',
-              'SortBy.__call__', 'nocase', 'cmp', 'InClass.renderwb', 'InClass.renderwob'):
+              'SortBy.__call__', 'nocase', 'cmp', 'InClass.renderwb', 'InClass.renderwob',
+              'SequenceFromIter.__getitem__'):
         if not c.get('reach:' + r):
-            inc.append('anchor never entered: ' + r)
+            diag.append('anchor never entered: ' + r)
+    # every container kind: every way of sorting decided on lists of >= 2 elements, and every law
+    cs = t.get('container x sort', {})
+    cl = t.get('container x law', {})
+    for cont in CONTAINERS + U.NEW_CONTAINERS:
+        gaps = [k for k in SORT_CLASSES if not cs.get('%s | %s' % (cont, k))]
+        gaps += [k for k in LAWS if not cl.get('%s | %s' % (cont, k))]
+        if gaps:
+            inc.append('container %s: never decided for %s' % (cont, ', '.join(gaps)))
+    for name, keys in (('sequence given by', SEQFROMS), ('tag syntax', SYNTAXES)):
+        for k in keys:
+            if not t.get(name, {}).get(k):
+                inc.append('%s %s never exercised' % (name, k))
     cells = t.get('keytype x field form', {})
     missing = []
     for kt in U.KTYPES:
@@ -595,7 +803,8 @@ def finish(agg):
             for dl in ('plain', 'callable'):
                 if not kd.get('%s | %s/%s' % (kt, kind, dl)):
                     inc.append('never rendered: %s as %s/%s' % (kt, kind, dl))
-    for name, keys in (('route', ['sort', 'sort_unq', 'sort_expr']), ('container', CONTAINERS),
+    for name, keys in (('route', ['sort', 'sort_unq', 'sort_expr']),
+                       ('container', CONTAINERS + U.NEW_CONTAINERS),
                        ('number of keys', ['0', '1', '2'])):
         for k in keys:
             if not t.get(name, {}).get(k):
@@ -610,9 +819,16 @@ def finish(agg):
                                         'lengths/domains for every (key type, spec form, kind, delivery) '
                                         'resp. (type pair, form pair); route, container, None '
                                         'representation, reverse mode and batch window rotate; part C is '
-                                        'seeded and extra',
+                                        'seeded and extra; part D is exhaustive over (container kind, '
+                                        'key type, single-key form / element sort / no sort, list) resp. '
+                                        '(type pair, form pair, list) for the stated lengths, the other '
+                                        'dimensions of a part D case are drawn with the seeded generator',
                          'max_length_single_key': MAXLEN_A[tier], 'max_length_two_keys': MAXLEN_B[tier],
-                         'seeded_lists': NSEEDED[tier]}}
+                         'seeded_lists': NSEEDED[tier],
+                         'containers_max_length_single_key': MAXLEN_D1[tier],
+                         'containers_max_length_two_keys': MAXLEN_D2[tier],
+                         'containers_seeded_lists': NSEEDED_D[tier],
+                         'diagnosis_not_available': diag}}
 
 
 def replay(ctx, rep):
@@ -623,10 +839,10 @@ def replay(ctx, rep):
     revmode = case.pop('revmode', None)
     batch = case.pop('batch', None)
     log = U.Log()
-    seq, rows = U.build(case, log)
-    fp0 = U.fingerprint(seq, rows)
+    data, rows = U.build(case, log)
+    fp0 = U.fingerprint(data, rows)
     fields = fields_of(case)
-    plain = render(ctx, mon, templates, case, seq, rows, log, None, None, fp0)
+    plain = render(ctx, mon, templates, case, data, rows, log, None, None, fp0)
     if plain is None:
         return
     if case['spec'] is not None or case['isort']:
@@ -639,7 +855,7 @@ def replay(ctx, rep):
         want = plain
         if revmode in ('reverse', 'reverse_expr1'):
             want = plain[::-1]
-        got = render(ctx, mon, templates, case, seq, rows, log, revmode, batch, fp0)
+        got = render(ctx, mon, templates, case, data, rows, log, revmode, batch, fp0)
         if got is None:
             return
         if batch:
